@@ -4,8 +4,12 @@ The world-login functions `ProofSeed::into_client_header_crypto` / `into_server_
 (Gen/CodeApi.lean), denote the model's functions (Model/World.lean) for EVERY user name, session key, proof and pair of seeds: which seed
 goes where (the object's own seed is the CLIENT seed on the client and the SERVER seed on the server), the comparison, what the refusal
 carries, and that the cipher object is built from the session key.  `calculate_world_server_proof` means the model's function (itself
-re-derived from the source: `C06_translated_world_proof`); `HeaderCrypto::new(K)` / `ClientCrypto::new(K)` / `ServerCrypto::new(K)` are
-symbolic values here (`cryptoMark`), the Wrath constructors with the model's panic behaviour.
+re-derived from the source: `C06_translated_world_proof`).  The cipher constructors are UNINTERPRETED here: `HeaderCrypto::new(K)` /
+`ClientCrypto::new(K)` / `ServerCrypto::new(K)` are symbolic values (`cryptoMark`) that name the module whose type it is — the translator
+resolves the type to the one DEFINED in the file the function stands in (exactly one item, not imported), so a TBC module that imported
+Vanilla's `HeaderCrypto` would not translate — and, for Wrath, carry the model's panic behaviour.  That those constructors are the model's
+`HeaderCrypto.new C e K` etc. is the business of the constructor / facade source facts and the key-constructor theorems
+(`C08_translated_enc_new`, `C09_translated_inner_new`), not of this file.
 -/
 import WowSrp.Props.Source.ApiBase
 import WowSrp.Model.World
@@ -17,44 +21,52 @@ def cryptoMark (kind : String) (K : Bytes) : AVal := .struct kind [("session_key
 def worldPrims (C : Crypto) : Prims := fun n =>
   if n = "calculate_world_server_proof" then some (fun vs => match vs with
     | [.nstr u, .bytes K, .num s, .num c] => .ok (.bytes (calculateWorldServerProof C u.asRef K s c)) | _ => illTyped)
-  else if n = "HeaderCrypto::new" then some (fun vs => match vs with
-    | [.bytes K] => .ok (cryptoMark "HeaderCrypto::new" K) | _ => illTyped)
-  else if n = "ClientCrypto::new" then some (fun vs => match vs with
-    | [.bytes K] => (WClientCrypto.new C K).bind (fun _ => .ok (cryptoMark "ClientCrypto::new" K)) | _ => illTyped)
-  else if n = "ServerCrypto::new" then some (fun vs => match vs with
-    | [.bytes K] => (WServerCrypto.new C K).bind (fun _ => .ok (cryptoMark "ServerCrypto::new" K)) | _ => illTyped)
+  else if n = "vanilla_header::HeaderCrypto::new" then some (fun vs => match vs with
+    | [.bytes K] => .ok (cryptoMark "vanilla_header::HeaderCrypto::new" K) | _ => illTyped)
+  else if n = "tbc_header::HeaderCrypto::new" then some (fun vs => match vs with
+    | [.bytes K] => .ok (cryptoMark "tbc_header::HeaderCrypto::new" K) | _ => illTyped)
+  else if n = "wrath_header::ClientCrypto::new" then some (fun vs => match vs with
+    | [.bytes K] => (WClientCrypto.new C K).bind (fun _ => .ok (cryptoMark "wrath_header::ClientCrypto::new" K)) | _ => illTyped)
+  else if n = "wrath_header::ServerCrypto::new" then some (fun vs => match vs with
+    | [.bytes K] => (WServerCrypto.new C K).bind (fun _ => .ok (cryptoMark "wrath_header::ServerCrypto::new" K)) | _ => illTyped)
   else none
 
 def selfSeed (seed : Nat) : Fields := [("seed", .num seed)]
 
+/-- the constructor the expansion's own module defines (the translator resolves `HeaderCrypto::new` to the `HeaderCrypto` of the file it
+    stands in, which must define it and must not import one) -/
+def ctorOf : Exp → String
+  | .vanilla => "vanilla_header::HeaderCrypto::new"
+  | .tbc => "tbc_header::HeaderCrypto::new"
+
 theorem C06_translated_into_client (C : Crypto) (e : Exp) (u : NStr) (K : Bytes) (seed serverSeed : Nat) :
     (if e = .vanilla then Gen.CodeApi.vanillaIntoClient else Gen.CodeApi.tbcIntoClient).run (worldPrims C) (selfSeed seed)
         [.nstr u, .bytes K, .num serverSeed] []
-      = some (.ok (.tup (.bytes (ProofSeed.intoClientHeaderCrypto C e seed u K serverSeed).1) (cryptoMark "HeaderCrypto::new" K), selfSeed seed, []))
+      = some (.ok (.tup (.bytes (ProofSeed.intoClientHeaderCrypto C e seed u K serverSeed).1) (cryptoMark (ctorOf e) K), selfSeed seed, []))
     ∧ (ProofSeed.intoClientHeaderCrypto C e seed u K serverSeed).2 = HeaderCrypto.new C e K := by
   cases e <;>
   simp [Gen.CodeApi.vanillaIntoClient, Gen.CodeApi.tbcIntoClient, ApiFn.run, runBody, Rhs.eval, drawKinds, Ret.eval, atomsVal, Atom.val, lookup, bindVar,
-    worldPrims, selfSeed, ProofSeed.intoClientHeaderCrypto, Out.bind, bind]
+    worldPrims, selfSeed, ctorOf, ProofSeed.intoClientHeaderCrypto, Out.bind, bind]
 
 theorem C06_translated_into_server (C : Crypto) (e : Exp) (u : NStr) (K proof : Bytes) (seed clientSeed : Nat) :
     (if e = .vanilla then Gen.CodeApi.vanillaIntoServer else Gen.CodeApi.tbcIntoServer).run (worldPrims C) (selfSeed seed)
         [.nstr u, .bytes K, .bytes proof, .num clientSeed] []
       = some (.ok (match ProofSeed.intoServerHeaderCrypto C e seed u K proof clientSeed with
           | .error er => (.err (valMatchErr er), selfSeed seed, [])
-          | .ok _ => (.ok (cryptoMark "HeaderCrypto::new" K), selfSeed seed, []))) := by
+          | .ok _ => (.ok (cryptoMark (ctorOf e) K), selfSeed seed, []))) := by
   by_cases hM : calculateWorldServerProof C u.asRef K seed clientSeed = proof
   · cases e <;>
     simp [Gen.CodeApi.vanillaIntoServer, Gen.CodeApi.tbcIntoServer, ApiFn.run, runBody, Rhs.eval, drawKinds, Ret.eval, atomsVal, fieldsVal, Atom.val, lookup,
-      bindVar, worldPrims, selfSeed, valMatchErr, eqVal, ProofSeed.intoServerHeaderCrypto, hM, Out.bind, bind]
+      bindVar, worldPrims, selfSeed, ctorOf, valMatchErr, eqVal, ProofSeed.intoServerHeaderCrypto, hM, Out.bind, bind]
   · have hb : (calculateWorldServerProof C u.asRef K seed clientSeed == proof) = false := by simp [hM]
     cases e <;>
     simp [hb, Gen.CodeApi.vanillaIntoServer, Gen.CodeApi.tbcIntoServer, ApiFn.run, runBody, Rhs.eval, drawKinds, Ret.eval, atomsVal, fieldsVal, Atom.val, lookup,
-      bindVar, worldPrims, selfSeed, valMatchErr, eqVal, ProofSeed.intoServerHeaderCrypto, hM, Out.bind, bind]
+      bindVar, worldPrims, selfSeed, ctorOf, valMatchErr, eqVal, ProofSeed.intoServerHeaderCrypto, hM, Out.bind, bind]
 
 theorem C06_translated_wrath_into_client (C : Crypto) (u : NStr) (K : Bytes) (seed serverSeed : Nat) :
     Gen.CodeApi.wrathIntoClient.run (worldPrims C) (selfSeed seed) [.nstr u, .bytes K, .num serverSeed] []
       = some ((ProofSeed.wrathIntoClient C seed u K serverSeed).bind (fun r =>
-          .ok (.tup (.bytes r.1) (cryptoMark "ClientCrypto::new" K), selfSeed seed, []))) := by
+          .ok (.tup (.bytes r.1) (cryptoMark "wrath_header::ClientCrypto::new" K), selfSeed seed, []))) := by
   simp only [ProofSeed.wrathIntoClient]
   cases hN : WClientCrypto.new C K with
   | panic m =>
@@ -68,7 +80,7 @@ theorem C06_translated_wrath_into_server (C : Crypto) (u : NStr) (K proof : Byte
     Gen.CodeApi.wrathIntoServer.run (worldPrims C) (selfSeed seed) [.nstr u, .bytes K, .bytes proof, .num clientSeed] []
       = some ((ProofSeed.wrathIntoServer C seed u K proof clientSeed).bind (fun r => match r with
           | .error er => .ok (.err (valMatchErr er), selfSeed seed, [])
-          | .ok _ => .ok (.ok (cryptoMark "ServerCrypto::new" K), selfSeed seed, []))) := by
+          | .ok _ => .ok (.ok (cryptoMark "wrath_header::ServerCrypto::new" K), selfSeed seed, []))) := by
   simp only [ProofSeed.wrathIntoServer]
   by_cases hM : calculateWorldServerProof C u.asRef K seed clientSeed = proof
   · cases hN : WServerCrypto.new C K with
